@@ -43,6 +43,8 @@ class Runner:
         self.cv = cv
         self.repo = ctx.repo
         self.cls = cv.cls
+        self.max_cells = 200         # (the unchanged tree needs at most 4 cells per scenario)
+        self.most_cells = 0
         self.kinds = []
         for k in sorted(set(cv.fwd) & set(cv.rev)):
             f = self.cls.methods.get(k + "_to_proto")
@@ -262,7 +264,9 @@ class Runner:
                 res["raised"] = str(r.args[1] if len(r.args) > 1 else r)[:160]
                 res["stage"] = stage
             return res, it
-        return enumerate_cells(run, {}, max_cells=4000)
+        cells_ = enumerate_cells(run, {}, max_cells=self.max_cells)
+        self.most_cells = max(getattr(self, "most_cells", 0), len(cells_))
+        return cells_
 
     def peer_compare(self, pm, p, p1, reads, kind, res, path):
         f0, f1 = set(pm.present_fields(p)), set(pm.present_fields(p1))
@@ -366,6 +370,7 @@ def rule_roundtrip(ctx, cv):
     wconv = where(CONV, "AttributesConverter", cv.cls.node.lineno if hasattr(cv.cls, "node") else None)
     for (t, f) in sorted(rn.accessed):
         ctx.hold("C10.desc", wconv, "%s.%s" % (t, f), "field exists in the descriptor (every access of it in the executed scenarios succeeded)")
+    ctx.units["C10.rt_most_cells"] = rn.most_cells
     return clean
 
 
